@@ -1308,6 +1308,12 @@ func c16Gen(g *Gen) {
 		}
 	}
 
+	// the config holder: degenerate and exotic YAML values at every typed component site (c16_holder.go)
+	c16HolderGen(g, dir, func(class string, kind int, toks [][]byte, z []int64) {
+		cases = append(cases, &Case{Kind: kind, S: toks, Z: z})
+		classes = append(classes, class)
+	})
+
 	p.precompute(cases)
 	for i, cs := range cases {
 		g.Count(classes[i])
